@@ -1,7 +1,7 @@
 (* C05 — optimize never changes what a validated expression evaluates to. Property theorems only; proofs in OptFacts.v / Generic.v.
    optimize_t and eval_t are the very constants that are extracted and run against the crate. *)
 Require Import ZArith NArith Bool List Arith. Import ListNotations.
-Require Import F64 Dec Types Generic Lang Opt IO OptFacts GenStruct OptTab.
+Require Import F64 Dec Types Generic Lang Opt IO OptFacts WalkTypes WalkRead GenOptArms OptTab.
 
 (* value preservation, for every environment, every fuel (success, error midway, even exhaustion), every accumulator *)
 Theorem C05_value : forall E, call_no_undef E -> std_if_then_env E ->
